@@ -264,3 +264,57 @@ Proof.
 Qed.
 
 Print Assumptions lib_agrees_lemma.
+
+(* ---------- first-order built-ins added to the pool: string methods, List.Visit, List.Set ---------- *)
+
+(* the string methods of the pool (Sem/StrLib.v run_str_method) are, on well-typed arguments, exactly the
+   string functions of C07's implementation model (Run/C07Run.v run_string applies the same functions
+   str_trim ... str_to_int, which Lib/BuiltinsProofs.v / Lib/StringProofs.v relate to the documented model) *)
+Lemma str_to_int_is_int s v : str_to_int s = Ok v -> exists z, v = VInt z.
+Proof.
+  unfold str_to_int.
+  repeat match goal with
+         | |- context [match ?x with _ => _ end] => destruct x
+         end; intros E; try discriminate; inversion E; eauto.
+Qed.
+
+Theorem str_pool_agrees : forall (app : value -> list value -> res value) (s : str),
+  run_method app (VStr s) n_trim [] = bind (str_trim s) (fun r => Ok (VStr r)) /\
+  run_method app (VStr s) n_toLower [] = bind (str_lower s) (fun r => Ok (VStr r)) /\
+  run_method app (VStr s) n_toUpper [] = bind (str_upper s) (fun r => Ok (VStr r)) /\
+  (forall p, run_method app (VStr s) n_contains [VStr p] = Ok (VBool (contains_str s p))) /\
+  (forall p, run_method app (VStr s) n_indexOf [VStr p] = Ok (VInt (index_of s p 0))) /\
+  (forall p, run_method app (VStr s) n_split [VStr p] = Ok (VList (map VStr (str_split s p)))) /\
+  (forall p n, run_method app (VStr s) n_cut [VInt p; VInt n] = Ok (VStr (str_cut s p n))) /\
+  (forall o n, run_method app (VStr s) n_replace [VStr o; VStr n] = Ok (VStr (str_replace s o n))) /\
+  run_method app (VStr s) n_toInt [] = str_to_int s.
+Proof.
+  intros app s. repeat split; intros; cbn; unfold run_str_method, run_str_core; cbn; try reflexivity.
+  - destruct (str_trim s); reflexivity.
+  - destruct (str_lower s); reflexivity.
+  - destruct (str_upper s); reflexivity.
+  - destruct (str_to_int s) as [v| | | |] eqn:E; cbn; try reflexivity.
+    destruct (str_to_int_is_int _ _ E) as [z ->]. reflexivity.
+Qed.
+
+(* List.Visit is the loop of iterator.MapReduce (C07: t_fold); List.Set is C07's m_set *)
+Lemma fold_agree (app : value -> list value -> res value) f : forall l acc,
+  t_fold (fun a b => app f [a; b]) acc (of_list l) = fold_app app f acc l.
+Proof.
+  induction l as [|x l IH]; intros acc; cbn [of_list t_fold fold_app]; [reflexivity|].
+  destruct (app f [acc; x]); cbn [bind]; auto.
+Qed.
+
+Theorem visit_set_agree : forall (app : value -> list value -> res value) (f : value),
+  (forall l init, is_func f 2 = true ->
+     run_method app (VList l) n_visit [init; f] = t_fold (fun a b => app f [a; b]) init (of_list l)) /\
+  (forall l i x, run_method app (VList l) n_set [VInt i; x] = bind (m_set i x l) (fun r => Ok (VList r))).
+Proof.
+  intros app f. split.
+  - intros l init F. rewrite fold_agree. cbn. rewrite F. reflexivity.
+  - intros l i x. cbn. unfold m_set. destruct ((i <? 0) || (Z.of_nat (length l) <=? i)); reflexivity.
+Qed.
+
+Print Assumptions str_pool_agrees.
+Print Assumptions visit_set_agree.
+
